@@ -17,6 +17,7 @@ import (
 	"go.etcd.io/etcd/clientv3"
 	"go.etcd.io/etcd/embed"
 	"go.uber.org/zap"
+	"google.golang.org/grpc"
 )
 
 type Etcd struct {
@@ -108,13 +109,85 @@ type CtlKV struct {
 	Log func(cmps []clientv3.Cmp, thenOps, elseOps []clientv3.Op, resp *clientv3.TxnResponse, err error)
 }
 
+// KeepCtl controls the lease keep-alive responses of one client: Hold() makes the next response wait (after etcd has
+// processed the renewal) until Release(); while held, and until Pass(), later keep-alive calls get no answer.
+type KeepCtl struct {
+	mu      sync.Mutex
+	hold    bool
+	n       int
+	held    chan struct{}
+	release chan struct{}
+}
+
+func (k *KeepCtl) Hold() {
+	k.mu.Lock()
+	k.hold, k.n = true, 0
+	k.mu.Unlock()
+}
+func (k *KeepCtl) Pass() {
+	k.mu.Lock()
+	k.hold = false
+	k.mu.Unlock()
+}
+func (k *KeepCtl) Held() <-chan struct{} { return k.held }
+func (k *KeepCtl) Release()              { k.release <- struct{}{} }
+
+type keepStream struct {
+	grpc.ClientStream
+	k   *KeepCtl
+	idx int // -1: not held; 0: the renewal whose response is held; >0: later renewals, never sent
+}
+
+func (s *keepStream) SendMsg(m interface{}) error {
+	if s.idx > 0 {
+		<-s.Context().Done() // etcd never sees this renewal
+		return s.Context().Err()
+	}
+	return s.ClientStream.SendMsg(m)
+}
+
+func (s *keepStream) RecvMsg(m interface{}) error {
+	err := s.ClientStream.RecvMsg(m)
+	if s.idx != 0 || err != nil {
+		return err
+	}
+	s.idx = -1
+	s.k.held <- struct{}{}
+	<-s.k.release
+	return nil
+}
+
+func (k *KeepCtl) intercept(ctx context.Context, desc *grpc.StreamDesc, cc *grpc.ClientConn, method string, streamer grpc.Streamer, opts ...grpc.CallOption) (grpc.ClientStream, error) {
+	cs, err := streamer(ctx, desc, cc, method, opts...)
+	if err != nil || method != "/etcdserverpb.Lease/LeaseKeepAlive" {
+		return cs, err
+	}
+	k.mu.Lock()
+	idx := -1
+	if k.hold {
+		idx = k.n
+		k.n++
+	}
+	k.mu.Unlock()
+	return &keepStream{ClientStream: cs, k: k, idx: idx}, nil
+}
+
+// NewClientKeep is NewClient plus control over the client's lease keep-alive responses.
+func (e *Etcd) NewClientKeep() (*clientv3.Client, *CtlKV, *KeepCtl, error) {
+	k := &KeepCtl{held: make(chan struct{}, 1), release: make(chan struct{}, 1)}
+	cli, c, err := e.newClient(grpc.WithStreamInterceptor(k.intercept))
+	return cli, c, k, err
+}
+
 // NewClient returns a fresh client and its controller.
-func (e *Etcd) NewClient() (*clientv3.Client, *CtlKV, error) {
+func (e *Etcd) NewClient() (*clientv3.Client, *CtlKV, error) { return e.newClient() }
+
+func (e *Etcd) newClient(dopts ...grpc.DialOption) (*clientv3.Client, *CtlKV, error) {
 	lc := zap.NewProductionConfig()
 	lc.Level = zap.NewAtomicLevelAt(zap.FatalLevel)
 	lc.OutputPaths = []string{"/dev/null"}
 	lc.ErrorOutputPaths = []string{"/dev/null"}
-	cli, err := clientv3.New(clientv3.Config{Endpoints: []string{e.ep}, DialTimeout: 5 * time.Second, LogConfig: &lc})
+	cli, err := clientv3.New(clientv3.Config{Endpoints: []string{e.ep}, DialTimeout: 5 * time.Second, LogConfig: &lc, DialOptions: dopts})
 	if err != nil {
 		return nil, nil, err
 	}
